@@ -2272,7 +2272,6 @@ static int32_t concatenate_dn(psPool_t *pool,
     int num_dcs;
     x509OrgUnit_t *orgUnit;
     int num_ous;
-    int first_len = 1;
     int first_field = 1;
     const x509DNAttributeType_t *parse_order = dn->attributeOrder;
     x509DNAttributeType_t print_order[DN_NUM_ATTRIBUTES_MAX] = {0};
@@ -2324,12 +2323,13 @@ static int32_t concatenate_dn(psPool_t *pool,
     int32_t nthOccurrenceDC = 0;
     x509DNAttributeType_t attr;
 
+    /* Which fields are preceded by the ", " separator depends on the order
+       in which they are printed below, which is not the order in which the
+       lengths are summed here. Reserve room for a separator before every
+       field; the exact length is taken from the write pointer at the end. */
 #  define INC_LEN(X)                                \
     if (dn->X ## Len > 0) {                         \
-        if (!first_len && X ## _prefix[0] != '/') { \
-            total_len += 2;                         \
-        }                                           \
-        first_len = 0;                              \
+        total_len += 2;                             \
         total_len += Strlen(X ## _prefix) +         \
             dn->X ## Len -                          \
             DN_NUM_TERMINATING_NULLS;               \
@@ -2349,14 +2349,7 @@ static int32_t concatenate_dn(psPool_t *pool,
                 psTraceCrypto("psX509GetOrganizationalUnit failed\n");
                 return PS_FAILURE;
             }
-            if (first_len)
-            {
-                first_len = 0;
-            }
-            else
-            {
-                total_len += 2;
-            }
+            total_len += 2;
             total_len += Strlen(organizationalUnit_prefix);
             total_len += orgUnit->len - DN_NUM_TERMINATING_NULLS;
         }
@@ -2390,14 +2383,7 @@ static int32_t concatenate_dn(psPool_t *pool,
         for (i = 0; i < num_dcs; i++)
         {
             total_len += Strlen(domainComponent_prefix);
-            if (first_len)
-            {
-                first_len = 0;
-            }
-            else
-            {
-                total_len += 2;
-            }
+            total_len += 2;
             dc = psX509GetDomainComponent(dn, i);
             if (dc == NULL)
             {
@@ -2616,11 +2602,11 @@ static int32_t concatenate_dn(psPool_t *pool,
         }
     }
 
-    psAssert(total_len == (p - str));
+    psAssert((p - str) <= total_len);
 
+    *out_str_len = (size_t) (p - str);
     *p++ = '\0';
     *out_str = str;
-    *out_str_len = total_len;
 
     return PS_SUCCESS;
 }
